@@ -4,7 +4,7 @@
 # Sequential: /repo is modified while a seed runs. Output: /tmp/seedrun.tsv
 cd /verif
 trap 'git -C /repo checkout -q -- . ' EXIT
-: > /tmp/seedrun.tsv
+[ -n "${APPEND:-}" ] || : > /tmp/seedrun.tsv
 for d in seeded/${1:-*}/; do
   n=$(basename $d)
   [ -f $d/meta.json ] || continue
